@@ -128,11 +128,12 @@ PROPS["C17"] = {
     "level": "exploration",
     "budget_s": {"quick": 60, "thorough": 900},
     "modes": [{"name": "", "runs": {"quick": 2500, "thorough": 60000}, "chunk": 100},
-              {"name": "fresh", "runs": {"quick": 400, "thorough": 12000}, "chunk": 25}],
+              {"name": "fresh", "runs": {"quick": 400, "thorough": 12000}, "chunk": 25},
+              {"name": "tenants", "runs": {"quick": 600, "thorough": 15000}, "chunk": 100}],
     "rule": ("one run = a stored state built by 0-12 tape-generated writes, then 5-25 read/syntax requests over all 15 read entry points (REST GET/POST check with and without status mirroring, gRPC check, REST and gRPC batch check, expand, list, namespaces, OPL syntax check), "
              "valid and malformed, with names the server has never seen, unknown namespaces, odd max-depth values and bad page tokens; a quarter of the requests come from the hostile generator of C13 (mutated REST requests and gRPC messages with absent sub-messages, read and syntax endpoints only). After EACH request: the SQL-seam statement log of the request contains no INSERT/UPDATE/DELETE/REPLACE/DDL, "
-             "and a dump of keto_relation_tuples and keto_uuid_mappings through a separate unwrapped sqlite connection is identical to before. mode 'fresh': the same on a registry created for the run, none of whose lazily built members exists yet; in half of the runs the first request it ever sees is a read, and writes keep arriving between the reads (the protected state is re-dumped after each). non-trivial = the protected state has rows; distinct = hash of (initial dump, request/response history)."),
-    "probes": ["probe_first_request_is_a_read", "probe_write_between_reads", "probe_write_verb_on_read_port", "reads_ok", "reads_rejected", "probe_reads_hit_database", "req_hostile-rest", "req_hostile-grpc"] + ["req_" + k for k in ["check-get", "check-get-openapi", "check-post", "check-post-openapi", "check-grpc", "batch-rest", "batch-grpc", "expand-rest", "expand-grpc", "list-rest", "list-grpc", "namespaces-rest", "namespaces-grpc", "syntax-rest", "syntax-grpc"]],
+             "and a dump of keto_relation_tuples and keto_uuid_mappings through a separate unwrapped sqlite connection is identical to before. mode 'fresh': the same on a registry created for the run, none of whose lazily built members exists yet; in half of the runs the first request it ever sees is a read, and writes keep arriving between the reads (the protected state is re-dumped after each). non-trivial = the protected state has rows; distinct = hash of (initial dump, request/response history). mode 'tenants': a registry with a contextualizer (multi-tenant deployment); half of the requests are issued for a network that has no row in the networks table - the dump includes that table."),
+    "probes": ["probe_read_for_an_unregistered_tenant", "probe_first_request_is_a_read", "probe_write_between_reads", "probe_write_verb_on_read_port", "reads_ok", "reads_rejected", "probe_reads_hit_database", "req_hostile-rest", "req_hostile-grpc"] + ["req_" + k for k in ["check-get", "check-get-openapi", "check-post", "check-post-openapi", "check-grpc", "batch-rest", "batch-grpc", "expand-rest", "expand-grpc", "list-rest", "list-grpc", "namespaces-rest", "namespaces-grpc", "syntax-rest", "syntax-grpc"]],
     "real": REAL_S, "stub": STUB_S,
     "fault_kinds": {},
     "assumptions": ["the statement classifier at the SQL seam recognises write statements by their leading keyword"],
